@@ -205,6 +205,8 @@ def install_as_const(I, owner):
 
     I.specs[("fn", id(dict))] = dict_spec
 
+    I.specs["getattr_dyn"] = A.abstract_fn("py.getattr", returns="obj", raises=[("any", Exception)])
+
     # zero-argument super() in Filter.as_const
     def super_spec(I_, st, args, kwargs, node):
         return [(st, st.alloc(HObj(_SuperProxy, fields={"obj": owner["node"]}, path="super()")))]
@@ -833,6 +835,17 @@ class Fold(Task):
                 want = ("tuple", (("child", "node.key"), ("child", "node.value")))
                 if a != want:
                     fails.append((f"as_const computes {show(a)}, expected {show(want)}", None, head_of(a), "tuple"))
+            if self.cls_name == "TemplateData":
+                # documented meaning, independent of the visitor (which itself consults as_const): safe markup when autoescaping is
+                # on AT RUN TIME, the plain string otherwise
+                matched += 1
+                ev = SchemaEval(None, {}, list(st.pc), res.termsym, lambda s_: I.truth_term(st, s_), [])
+                fl = ev.flag("autoescape")
+                want = T_call("Markup", [("field", "node.data")]) if fl == ("const", True) else (("field", "node.data") if fl == ("const", False) else None)
+                if want is None:
+                    fails.append(("as_const returns a constant although the value of template data depends on the run-time autoescape flag (volatile frame)", None, head_of(a), "rtflag"))
+                elif a != want:
+                    fails.append((f"as_const computes {show(a)}, documented value {show(want)}", None, head_of(a), head_of(want)))
             for sc in scs:
                 if sc.outcome == "raise" or not self.compatible(st, sc):
                     continue
@@ -899,6 +912,13 @@ def configure_output(I):
 
     I.specs[("fn", id(C.CodeGenerator._FinalizeInfo))] = finfo
     I.specs["call_obj"] = A.abstract_fn("call_obj", returns="obj", raises=[("any", Exception)])
+
+    def unknown_call(I_, st, fn, args, kwargs, node):
+        if fn is None:
+            return [(st, Raised(Exc(TypeError, ("'NoneType' object is not callable",), origin=getattr(node, "lineno", None))))]
+        return None
+
+    I.on_unknown_call = unknown_call
 
 
 def output_schemas(nchildren, buffer=None):
@@ -1064,6 +1084,11 @@ class OutputConsistency(Task):
                 out.append(Res(f"{self.label('finalize_order')}{self.pn(i)}", "unknown", "pyvc-path", 0, f"cannot read the constant text of the child off `{sc.describe()[:200]}`", self.kind))
                 continue
             fs_c, base_c, raw = terms[child]
+            if not flags["template_data"] and satisfiable(list(sc.pc) + [is_td]) and "finalize" in "".join(fs_c):
+                # the path does not decide whether the child is template data, yet finalizes it: template data must not go through finalize
+                out.append(Res(f"{self.label('template_data')}{self.pn(2000 + i)}", "refuted", "pyvc-path", time.time() - t1,
+                               f"a child that may be template data is written at compile time as {show(raw)}: template data does not go through finalize", self.kind,
+                               witness=dict(flags, clause="template_data", compile_time=show(raw))))
             if flags["template_data"]:
                 # template data: the text is the data itself (escape(Markup(d)) = Markup(d), str(d) = d); no finalize
                 ae = flags["autoescape"]
@@ -1098,9 +1123,19 @@ class OutputConsistency(Task):
                 out.append(Res(nm, "discharged", "pyvc-path", time.time() - t1, f"{n_cmp} run-time schemas agree", self.kind))
         # ---- template data on run-time paths (volatile frames): the emitted expression must still render the data itself
         for j, rt in runtimes:
-            if not satisfiable(list(rt.pc) + [is_td]) or rt.holds(z3.Not(VOLATILE)):
+            if not satisfiable(list(rt.pc) + [is_td]):
                 continue
             t1 = time.time()
+            if rt.holds(z3.Not(VOLATILE)):
+                # TemplateData.as_const succeeds in a non-volatile frame (C08.fold.TemplateData): it must have been written as a constant
+                ev = [e for e in rt.st.trace if e.kind == "call" and e.name == "child.as_const"]
+                succeeded = any(isinstance(e.result, Sym) for e in ev) or (not ev and rt.holds(is_td))
+                if succeeded and rt.holds(is_td):
+                    term, txt = self.runtime_expr(rt, child, list(rt.pc))
+                    out.append(Res(f"{self.label('template_data')}{self.pn(3000 + j)}", "refuted", "pyvc-path", time.time() - t1,
+                                   f"template data whose as_const succeeded is not written as a constant but emitted as {txt} (non-volatile frame)", self.kind,
+                                   witness={"clause": "template_data_runtime", "emitted": txt, "finalize": False, "nonvolatile": True}))
+                continue
             for rt_ae in (True, False):
                 term, txt = self.runtime_expr(rt, child, list(rt.pc))
                 val = self.text_value(term, rt_ae)
